@@ -35,6 +35,7 @@ func (a *LabelFormatPlanner) Process(ctx *shared.PlannerContext,
 		labelFns = append(labelFns, func(m map[string]string) map[string]string {
 			val := m[change]
 			if val == "" {
+				delete(m, label)
 				return m
 			}
 			m[label] = val
